@@ -3,9 +3,78 @@ import ShelxModel.C04
 open Lean Shelx.J
 
 namespace Shelx.Drv.C04
+open Shelx.C04
+
+def srcOf (j : Json) : Except String (Src String) := do
+  let k ← strField j "k"
+  let kind ← match k with
+    | "sfac" => pure SrcKind.sfac
+    | "fvar" => pure SrcKind.fvar
+    | "other" => pure SrcKind.other
+    | _ => err s!"C04: unknown source kind {k}"
+  return { kind := kind, nphys := ← natField j "n", toks := ← field j "t" >>= strs }
+
+def opOf (j : Json) : Except String (Op String) := do
+  let k ← strField j "k"
+  match k with
+  | "addLine" => return .addLine (← natField j "i") (← field j "t" >>= strs)
+  | "insertAfter" => return .insertAfter (← natField j "o") (← field j "t" >>= strs)
+  | "delete" => return .delete (← natField j "o")
+  | "replace" => return .replace (← natField j "o") (← field j "t" >>= strs)
+  | "setObj" => return .setObj (← natField j "o") (← field j "t" >>= strs)
+  | "insertObjAfter" => return .insertObjAfter (← natField j "u") (← natField j "o") (← field j "t" >>= strs)
+  | _ => err s!"C04: unknown op kind {k}"
+
+def aopOf (j : Json) : Except String (AOp String) := do
+  let k ← strField j "k"
+  match k with
+  | "insertAt" => return .insertAt (← natField j "p") (← field j "t" >>= strs)
+  | "insertAfter" => return .insertAfter (← natField j "o") (← field j "t" >>= strs)
+  | "delete" => return .delete (← natField j "o")
+  | "replace" => return .replace (← natField j "o") (← field j "t" >>= strs)
+  | "setObj" => return .setObj (← natField j "o") (← field j "t" >>= strs)
+  | "insertObjAfter" => return .insertObjAfter (← natField j "u") (← natField j "o") (← field j "t" >>= strs)
+  | _ => err s!"C04: unknown abstract op kind {k}"
+
+def lineJ (l : Line String) : Json :=
+  Json.arr #[(match l.key with | none => Json.null | some k => ofNat k), ofStrs l.toks]
+
+def linesJ : Option (List (Line String)) → Json
+  | none => Json.null
+  | some ls => Json.arr (ls.map lineJ).toArray
+
+/-- one harness step = the list of model operations one API call stands for -/
+structure StepReq where
+  ops : List (Op String)
+  aops : List (AOp String)
+
+def stepOf (j : Json) : Except String StepReq := do
+  return { ops := ← (← arrField j "ops").mapM opOf, aops := ← (← arrField j "aops").mapM aopOf }
 
 def handle (j : Json) : Except String Json := do
   let op ← strField j "op"
-  err s!"C04: unknown op {op}"
+  match op with
+  | "hist" =>
+    let src ← (← arrField j "src").mapM srcOf
+    let steps ← (← arrField j "steps").mapM stepOf
+    let s0 := load src
+    let a0 := loadAbs src
+    let mut m : Option (St String) := some s0          -- the model (repaired scheme)
+    let mut old : Option (St String) := some a0        -- the scheme with absolute indices
+    let mut sp : Option (List (Line String)) := some (written s0)   -- the specification
+    let mut out : Array Json := #[]
+    for st in steps do
+      -- does the harness' abstract edit agree with the one the model derives (`absTrace`)?
+      let agree := match m with
+        | none => true
+        | some s => decide (absTrace s st.ops = st.aops) || (run s st.ops).isNone
+      m := m.bind fun s => run s st.ops
+      old := old.bind fun s => run s st.ops
+      sp := sp.bind fun ls => absRun ls st.aops
+      out := out.push (Json.mkObj [("model", linesJ (m.map written)), ("spec", linesJ sp),
+                                   ("old", linesJ (old.map written)), ("absof", Json.bool agree)])
+    return Json.mkObj [("init", linesJ (some (written s0))), ("init_old", linesJ (some (written a0))),
+                       ("steps", Json.arr out)]
+  | _ => err s!"C04: unknown op {op}"
 
 end Shelx.Drv.C04
